@@ -4,6 +4,7 @@ package interp
 
 import (
 	"fmt"
+	"os"
 	"go/token"
 	"go/types"
 	"strings"
@@ -238,6 +239,7 @@ func init() {
 		fr.i.sched.preempts = 0
 		return nil
 	})
+	reg("vrt.ExploreOrder", func(fr *frame, args []value) value { fr.i.sched.exploreOrder = args[0].(bool); return nil })
 	reg("vrt.EagerSpawn", func(fr *frame, args []value) value { fr.i.sched.eagerSpawn = args[0].(bool); return nil })
 	reg("vrt.Drain", func(fr *frame, args []value) value { fr.i.sched.drain(); return nil })
 	reg("vrt.Yield", func(fr *frame, args []value) value { fr.i.sched.yield(args[0].(string)); return nil })
@@ -271,6 +273,12 @@ func init() {
 			r[i] = uint8(0)
 		}
 		return r
+	})
+	reg("vrt.Log", func(fr *frame, args []value) value {
+		if debugLog {
+			fmt.Fprintln(os.Stderr, "vrt.Log:", sprintfValues(fr, args[0], args[1]))
+		}
+		return nil
 	})
 	reg("vrt.Tier", func(fr *frame, args []value) value { return fr.i.env.Tier })
 	reg("vrt.Harness", func(fr *frame, args []value) value { return "" })
@@ -685,10 +693,7 @@ func init() {
 			me.waiting = func() bool { return true }
 			me.why = "sleep"
 			oth := s.others()
-			k := 0
-			if len(oth) > 1 {
-				k = fr.i.ctx.choose(len(oth), "sleep")
-			}
+			k := s.pick(len(oth), "sleep")
 			s.switchTo(oth[k])
 			me.waiting = nil
 		}
@@ -964,3 +969,5 @@ func crcFoldSummary(fr *frame, crc value, mem []value, n int) value {
 	}
 	return mkSV(h, types.Uint32)
 }
+
+var debugLog = os.Getenv("GOSYM_LOG") != ""
